@@ -270,8 +270,17 @@ func ReadMesh(in io.Reader) ([]ObjMesh, []string, error) {
 			}
 
 			if !workingGeom.empty() {
+				// Close the material run that is still open so the group we
+				// are leaving keeps all of its faces.
+				if trisSenseLastMat > 0 && len(workingGeom.meshMats) > 0 {
+					workingGeom.meshMats[len(workingGeom.meshMats)-1].PrimitiveCount = trisSenseLastMat
+				}
 				geoms = append(geoms, workingGeom.toMesh())
 				workingGeom = newObjMeshReading()
+
+				// Faces counted so far belong to the group just closed, not to
+				// the first material of the new one.
+				trisSenseLastMat = 0
 			}
 			workingGeom.name = groupName
 
